@@ -81,6 +81,14 @@ Theorem update_forms_roundtrip : forall o m z max_size request_payload w,
 Proof. intros o m z ms rp w OO. exact (update_roundtrip_lemma o OO m z ms rp w). Qed.
 Print Assumptions update_forms_roundtrip.
 
+(* ... and the parsed update renders to the same octets again *)
+Theorem update_forms_rerender_identical : forall o m z max_size request_payload w m',
+  org_ok o -> WfUpd o m z -> wf_tsig m ->
+  to_wire m o max_size request_payload false 0 = Ok w -> from_wire w o po0 = Ok m' ->
+  to_wire m' o max_size request_payload false 0 = Ok w.
+Proof. intros o m z ms rp w m' OO. exact (update_rerender_lemma o OO m z ms rp w m'). Qed.
+Print Assumptions update_forms_rerender_identical.
+
 (* the header counts equal the records present (record sets count one per record, an empty set one;
    OPT and TSIG count in the additional section), and the reader, which reads exactly that many
    records and rejects trailing octets, accepts the message *)
